@@ -104,14 +104,14 @@ def select_ops(sym, op, N, hk, ragged, two=True):
 
 def move_op(sym, N, hk, ragged):
     hdr, rows = _table(sym, N, hk, ragged)
-    assume(hk != 'dup')
     table = [hdr] + rows
-    f = sym.pick('field', hdr)
+    f = sym.pick('field', hdr) if hk != 'dup' else 'c'       # with a duplicated name elsewhere, move the distinct one
     index = sym.pick('index', [0, 1, 2, 3, 5, -1, -2, -4])
     got = _out(petl.movefield(table, f, index))
-    oh = [x for x in hdr if x != f]
-    oh.insert(index, f)
-    order = [hdr.index(x) for x in oh]
+    idx = [i for i, x in enumerate(hdr) if x != f]
+    idx.insert(index, hdr.index(f))
+    oh = [hdr[i] for i in idx]
+    order = idx
     exp = [tuple(oh)] + [tuple(_get(r, i, None) for i in order) for r in rows]
     _eq(got, exp, 'movefield', hdr, f, index)
 
@@ -369,7 +369,11 @@ def fill_ops(sym, op, N):
     table = [hdr] + rows
     if op == 'filldown':
         fields = sym.pick('fields', [(), ('a',), ('b', 'c'), (2,)])
-        got = _out(petl.filldown(table, *fields))
+        missing = sym.pick('missing', [None, 'NA'])
+        if missing is not None:
+            rows = [[('NA' if (c is None and (i + j) % 2 == 0) else c) for j, c in enumerate(r)] for i, r in enumerate(rows)]
+            table = [hdr] + rows
+        got = _out(petl.filldown(table, *fields, missing=missing))
         idx = [0, 1, 2] if not fields else _resolve(hdr, list(fields))
         exp = [tuple(hdr)]
         fill = None
@@ -379,12 +383,12 @@ def fill_ops(sym, op, N):
                 fill = list(r)
             else:
                 for j in idx:
-                    if r[j] is None:
+                    if r[j] == missing and (r[j] is None) == (missing is None):
                         o[j] = fill[j]
                     else:
                         fill[j] = r[j]
             exp.append(tuple(o))
-        _eq(got, exp, op, fields)
+        _eq(got, exp, op, fields, missing)
     elif op == 'fillright':
         got = _out(petl.fillright(table))
         exp = [tuple(hdr)]
@@ -507,7 +511,7 @@ def jobs(tier):
         for hk in ('abc', 'dup', 'num'):
             add('select_ops', '%s/%s/ragged/2sel' % (op, hk), op=op, N=1, hk=hk, ragged=True)
             add('select_ops', '%s/%s/ragged/1sel' % (op, hk), op=op, N=N, hk=hk, ragged=True, two=False)
-    for hk in ('abc', 'num'):
+    for hk in ('abc', 'num', 'dup'):
         add('move_op', 'movefield/%s' % hk, N=N, hk=hk, ragged=True)
     for op in ('cat', 'cat-header', 'stack', 'annex'):
         add('concat_ops', '%s/ragged' % op, op=op, N=1 if q else 2, ragged=True)
